@@ -53,6 +53,11 @@ SUPS = [
     [_rule("r0", C2, 2, "a"), _rule("r1", C1, 5, "b", sup=["r0"])],
     [_rule("r0", C1, 5, "a"), _rule("r1", C2, 2, "b", sup=["r0"]), _rule("r2", C1, 2, "a or b", sup=["r0"])],
 ]
+# an inferior rule with two superiors, the first of which (by name) finds nothing in the record or only far away
+MULTISUP = [
+    [_rule("r0", C1, 2, "c"), _rule("r1", C2, 2, "a"), _rule("r2", C1, 5, "b", sup=["r0", "r1"])],
+    [_rule("r0", C2, 2, "a"), _rule("r1", C1, 2, "c"), _rule("r2", C1, 5, "b", sup=["r0", "r1"])],
+]
 EXTS = [
     [_rule("r0", C1, 2, "a", ext="c"), _rule("r1", C2, 5, "a", ext="cds(b or c)")],
 ]
@@ -95,6 +100,9 @@ def families(tier: str) -> Dict[str, Dict[str, Any]]:
                  "rulesets": SUPS, "leads": [0, 5], "tails": [0, 2], "cuts": -1},
         "sup4": {"lens": (3, 3, 4, 3), "gaps": four, "hits": [("a", "b", "b", "a"), ("b", "a", "a", "b")],
                  "rulesets": SUPS, "leads": [0], "tails": [2], "cuts": -1},
+        "sup2x": {"lens": (3, 4, 3), "gaps": [0, C1 - 1, C2, FAR],
+                  "hits": [("ab", "b", "a"), ("b", "ab", "b"), ("ab", "b", "c"), ("b", "ab", "c")],
+                  "rulesets": MULTISUP, "leads": [0], "tails": [2], "cuts": -1},
         # extenders
         "ext3": {"lens": (3, 4, 3), "gaps": [-2, 0, C1 - 1, C1, C1 + 1, C2, FAR],
                  "hits": [("c", "a", "c"), ("a", "c", "c"), ("a", "", "c"), ("a", "b", "c")],
@@ -121,7 +129,7 @@ def families(tier: str) -> Dict[str, Dict[str, Any]]:
 
 # relative cost of the families (number of parts each is split into)
 PARTS = {"chain2": 2, "chain3": 6, "chainx3": 2, "chain4": 8, "nest3": 5, "pair2": 2, "pair3": 6, "sup3": 6,
-         "sup4": 6, "ext3": 6, "cond3": 5, "chain5": 8}
+         "sup4": 6, "sup2x": 3, "ext3": 6, "cond3": 5, "chain5": 8}
 
 
 def shards(tier: str, seed: int) -> list:
